@@ -269,7 +269,7 @@ def photon_lib(timeout=1500):
     """Hook-enabled libphoton.so built from /repo's CURRENT working tree (incremental, ninja).
     Returns the directory holding libphoton.so."""
     d = os.path.join(BUILD, 'photon')
-    with Lock('photon'):
+    with Lock('photon_' + hashlib.sha1(BUILD.encode()).hexdigest()[:8]):   # one lock per build directory (trees do not block each other)
         if not os.path.exists(os.path.join(d, 'build.ninja')):
             os.makedirs(d, exist_ok=True)
             rc, out = sh('cmake -S %s -B %s -G Ninja -DCMAKE_BUILD_TYPE=RelWithDebInfo '
